@@ -35,6 +35,10 @@ pub struct ParCase {
     /// the order in which the handlers are spawned is a permutation derived from this
     #[serde(default)]
     pub order: u32,
+    /// further HTLCs of sets whose recipient pays out: (set index, microseconds after the common release);
+    /// they reach the plugin around the instant the payment is decided
+    #[serde(default)]
+    pub late: Vec<(u8, u16)>,
 }
 
 struct Staller {
@@ -62,8 +66,13 @@ impl tracing::Subscriber for Staller {
 }
 
 pub fn par_strategy() -> impl Strategy<Value = ParCase> {
-    (proptest::collection::vec((1u8..=6, prop_oneof![3 => Just(true), 1 => Just(false)]), 1..=10), 0u8..4, any::<u16>(), any::<u16>(), prop_oneof![Just(0u16), Just(300), Just(4000)], any::<u32>())
-        .prop_map(|(sets, yields, m1, m2, stall_us, order)| ParCase { sets, yields, stall_mask: m1 & m2, stall_us, order })
+    (proptest::collection::vec((1u8..=6, prop_oneof![3 => Just(true), 1 => Just(false)]), 1..=10), 0u8..4, any::<u16>(), any::<u16>(), prop_oneof![Just(0u16), Just(300), Just(4000)], any::<u32>(), proptest::collection::vec((any::<u8>(), 0u16..8000), 0..8))
+        .prop_map(|(sets, yields, m1, m2, stall_us, order, late)| {
+            // construction, not rejection: late HTLCs are mapped onto the sets that pay out
+            let good: Vec<u8> = (0..sets.len() as u8).filter(|i| sets[*i as usize].1).collect();
+            let late = if good.is_empty() { vec![] } else { late.into_iter().map(|(k, d)| (good[(k as usize * good.len()) >> 8], d)).collect() };
+            ParCase { sets, yields, stall_mask: m1 & m2, stall_us, order, late }
+        })
 }
 
 #[derive(Default)]
@@ -202,8 +211,18 @@ pub fn par_case(prop: &'static str) -> impl Fn(&ParCase) -> CaseReport + Sync {
                 htlcs.push(HtlcSpec { pay: i as u8, hash_of: None, amount_msat: a, total_msat: Some(need), forward_msat: Some(a), cltv_expiry: 1000 + 1200, cltv_rel: 1100, forward: false, meta: Meta::Normal, extra: vec![], raw_payload: None });
             }
         }
+        let n_prompt = htlcs.len();
+        for (set, _) in &c.late {
+            let i = *set as usize % c.sets.len();
+            if c.sets[i].1 {
+                let a = need / 2 + 1;
+                htlcs.push(HtlcSpec { pay: i as u8, hash_of: None, amount_msat: a, total_msat: Some(need), forward_msat: Some(a), cltv_expiry: 1000 + 1200, cltv_rel: 1100, forward: false, meta: Meta::Normal, extra: vec![], raw_payload: None });
+            }
+        }
+        let late_delays: Vec<u16> = c.late.iter().filter(|(set, _)| c.sets[*set as usize % c.sets.len()].1).map(|l| l.1).collect();
         let scn = crate::props::c13::blank(payments.clone(), htlcs, 1);
-        let mut reqs: Vec<(usize, Value)> = (0..scn.htlcs.len()).map(|i| (scn.htlcs[i].pay as usize, scn.render(i))).collect();
+        let late_reqs: Vec<(usize, Value, u16)> = (n_prompt..scn.htlcs.len()).map(|i| (scn.htlcs[i].pay as usize, scn.render(i), late_delays[i - n_prompt])).collect();
+        let mut reqs: Vec<(usize, Value)> = (0..n_prompt).map(|i| (scn.htlcs[i].pay as usize, scn.render(i))).collect();
         if c.order != 0 {
             let mut keyed: Vec<(u64, (usize, Value))> = reqs.into_iter().enumerate().map(|(i, r)| (fp_of(&(c.order, i)), r)).collect();
             keyed.sort_by_key(|k| k.0);
@@ -239,8 +258,18 @@ pub fn par_case(prop: &'static str) -> impl Fn(&ParCase) -> CaseReport + Sync {
                 routing_policy: TrampolineRoutingPolicy { fee_base_msat: 0, fee_proportional_millionths: 5000, cltv_expiry_delta: 1008 },
                 store,
             }));
-            let barrier = Arc::new(tokio::sync::Barrier::new(reqs.len()));
+            let barrier = Arc::new(tokio::sync::Barrier::new(reqs.len() + late_reqs.len()));
             let mut tasks = vec![];
+            for (pi, r, delay) in late_reqs {
+                let mgr = mgr.clone();
+                let b = barrier.clone();
+                tasks.push(tokio::spawn(async move {
+                    let req: HtlcAcceptedRequest = serde_json::from_value(r).unwrap();
+                    b.wait().await;
+                    tokio::time::sleep(Duration::from_micros(delay as u64)).await;
+                    (pi, serde_json::to_value(mgr.handle_htlc(&req).await).unwrap())
+                }));
+            }
             for (pi, r) in reqs {
                 let mgr = mgr.clone();
                 let b = barrier.clone();
@@ -350,6 +379,12 @@ pub fn par_case(prop: &'static str) -> impl Fn(&ParCase) -> CaseReport + Sync {
         rep.nontrivial = c.sets.len() >= 2 || c.sets.iter().any(|s| s.0 >= 3);
         rep.fingerprint = fp_of(&serde_json::to_string(c).unwrap());
         rep.classes.push("parallel_same_instant_arrival".into());
+        if !c.late.is_empty() {
+            rep.classes.push("htlcs_arriving_around_the_decision".into());
+        }
+        if c.stall_us > 0 && c.stall_mask != 0 {
+            rep.classes.push("log_call_sites_stalled".into());
+        }
         if rep.nontrivial {
             rep.sample = Some(serde_json::to_value(c).unwrap());
         }
